@@ -532,6 +532,88 @@ pub fn gen_phased_workload(rng: &mut Rng, nthreads: usize, phases: usize) -> Wor
     Workload { pool, threads }
 }
 
+/// "Soak" workload: long call histories in one process. Thread 0 evaluates a probe set, then
+/// issues `k` calls of ordinary traffic (optionally while a second thread does the same), then
+/// evaluates the probe set again. Anything the library accumulates across calls — counters,
+/// adaptive fast paths, caches that fill up, sticky error flags — shows as a probe whose answer
+/// changed, or as a traffic call answered differently from its earlier self.
+pub const SOAK_TRAFFIC: [&str; 6] = ["ascii_identifiers", "ascii_with_spaces", "mostly_rejected", "one_input_repeated", "mixed_unicode", "rtl_and_digits"];
+
+pub fn gen_soak_workload(rng: &mut Rng, k: usize, traffic: usize, two_threads: bool) -> Workload {
+    let mut pool: Vec<String> = vec![];
+    // ---- probe inputs: literals, every token class, near-duplicates
+    for l in LITERALS {
+        pool.push(l.to_string());
+    }
+    let all: Vec<usize> = (0..TOKENS.len()).collect();
+    for c in 0..TOKENS.len() {
+        for _ in 0..2 {
+            pool.push(gen_string(rng, &[c]));
+        }
+        pool.push(gen_string(rng, &[c, 0]));
+    }
+    for _ in 0..24 {
+        pool.push(gen_string(rng, &all));
+    }
+    let nprobe_inputs = pool.len();
+    // ---- traffic inputs
+    let names = ["alice", "bob", "carol", "dave", "erin", "frank", "grace", "heidi", "ivan", "judy", "mallory", "oscar", "peggy", "trent", "victor", "walter"];
+    let tstart = pool.len();
+    let ntraffic = if traffic == 3 { 1 } else { 48 };
+    for i in 0..ntraffic {
+        let n = names[rng.usize_below(names.len())];
+        let m = names[rng.usize_below(names.len())];
+        let s = match traffic {
+            0 => match i % 4 { 0 => n.to_string(), 1 => format!("{}{}", n, rng.below(1000)), 2 => format!("{}.{}", n, m), _ => format!("{}{}", n[..1].to_uppercase(), &n[1..]) },
+            1 => match i % 3 { 0 => format!("{} {}", n, m), 1 => format!("{}  {} ", n, m), _ => format!("{} {}", n[..1].to_uppercase() + &n[1..], m) },
+            2 => if i % 2 == 0 { format!("{}\u{0}", n) } else { format!("{} {}\t", n, m) },
+            3 => n.to_string(),
+            4 => gen_string(rng, &all),
+            _ => gen_string(rng, &[8, 9, 0]),
+        };
+        pool.push(s);
+    }
+    // a little of everything else, so that "ascii-heavy" means ~94%, not 100%
+    let xstart = pool.len();
+    for _ in 0..8 {
+        pool.push(gen_string(rng, &all));
+    }
+    let dominant = rng.below(4) as u8;
+    let mut probe_calls = vec![];
+    for a in 0..nprobe_inputs {
+        // every probe input on two profile/kind combinations, static form and a fresh instance
+        for _ in 0..2 {
+            let profile = rng.below(4) as u8;
+            let kind = rng.below(3) as u8;
+            let b = if rng.chance(1, 2) { a } else { rng.usize_below(nprobe_inputs) };
+            let api = if rng.chance(1, 2) { 0 } else { 1 };
+            probe_calls.push(Call { profile, kind, api, fa: 0, fb: 0, a, b: if kind == 2 { b } else { 0 } });
+        }
+    }
+    let traffic_calls = |rng: &mut Rng, k: usize| -> Vec<Call> {
+        (0..k)
+            .map(|_| {
+                let exotic = rng.chance(1, 16);
+                let a = if exotic { xstart + rng.usize_below(8) } else { tstart + rng.usize_below(ntraffic) };
+                let profile = if rng.chance(7, 8) { dominant } else { rng.below(4) as u8 };
+                let kind = match rng.below(8) { 0 => 0, 7 => 2, _ => 1 };
+                let b = if kind == 2 { tstart + rng.usize_below(ntraffic) } else { 0 };
+                let api = if rng.chance(3, 4) { 0 } else { rng.below(API_FORMS.len() as u64) as u8 };
+                let fa = if kind == 2 { rng.below(4) as u8 } else { rng.below(ARG_FORMS.len() as u64) as u8 };
+                Call { profile, kind, api, fa, fb: 0, a, b }
+            })
+            .collect()
+    };
+    let mut t0 = probe_calls.clone();
+    t0.extend(traffic_calls(rng, k));
+    t0.extend(probe_calls.iter().cloned());
+    let mut threads = vec![ThreadPlan { parent: 0, after: 0, calls: t0 }];
+    if two_threads {
+        threads.push(ThreadPlan { parent: 0, after: probe_calls.len(), calls: traffic_calls(rng, k / 2) });
+    }
+    Workload { pool, threads }
+}
+
 // ---------------------------------------------------------------- history analysis
 
 /// Hash of the global order of invoke/return events: the interleaving at call granularity.
